@@ -37,6 +37,10 @@ type ConnCfg struct {
 	// Dialer has compression on, the 101 does not announce it).  The
 	// connection must behave exactly like one that never mentioned it.
 	Declined bool `json:"declined,omitempty"`
+	// HSTimeout: the connection was made with a HandshakeTimeout (one hour)
+	// configured on the Upgrader / Dialer; nothing of it may outlive the
+	// handshake.
+	HSTimeout bool `json:"hs_timeout,omitempty"`
 }
 
 func (c ConnCfg) Role() string {
@@ -133,6 +137,9 @@ func NewServerConn(cfg ConnCfg, tr *xport.ScriptConn, pool websocket.BufferPool)
 	if cfg.Pool {
 		u.WriteBufferPool = pool
 	}
+	if cfg.HSTimeout {
+		u.HandshakeTimeout = time.Hour
+	}
 	c, err := u.Upgrade(w, upgradeRequest(cfg.Compress || cfg.Declined), nil)
 	if err != nil {
 		return nil, fmt.Errorf("harness: Upgrade failed: %w", err)
@@ -187,6 +194,9 @@ func NewClientConn(cfg ConnCfg, tr *xport.ScriptConn, pool websocket.BufferPool)
 	}
 	if cfg.Pool {
 		d.WriteBufferPool = pool
+	}
+	if cfg.HSTimeout {
+		d.HandshakeTimeout = time.Hour
 	}
 	c, _, err := d.Dial("ws://example.com/", nil)
 	tr.OnWrite = nil
